@@ -390,9 +390,9 @@ func (x *c15G) leaf() *c15Node {
 		return n
 	case 12:
 		n := &c15Node{Kind: kReplace, Key: x.field()}
-		n.Pat = x.r.PickStr([]string{"ab", "^ab", "ab$", "a(b)?c", "(?P<x>ab)c", "^Foo$", "x y", "aa"})
+		n.Pat = x.r.PickStr([]string{"ab", "^ab", "ab$", "a(b)?c", "(?P<x>ab)c", "^Foo$", "x y", "aa", "a", "^a", "a$"})
 		n.Repl = x.r.PickStr([]string{"", "XY", "-", "abab", "é", "Q"})
-		x.add(n.Key, "ab", "abab", "xabx", "aab", "abc ac", "aaa", "aaaa", "Foo", "Foo ", "x y x y", "cab", "ababab")
+		x.add(n.Key, "ab", "abab", "xabx", "aab", "abc ac", "aaa", "aaaa", "Foo", "Foo ", "x y x y", "cab", "ababab", "a", "b", "ba")
 		return n
 	default:
 		n := &c15Node{Kind: kExtractRe, Key: x.field()}
@@ -599,6 +599,7 @@ func c15Gen(g *Gen) {
 	c15Unescapes(g)
 	c15Edges(g)
 	c15SameLength(g)
+	c15Long(g)
 	c15Malformed(g)
 	// random programs
 	for i := 0; i < g.Pick(1500, 40000); i++ {
@@ -1023,4 +1024,46 @@ func c15SameLength(g *Gen) {
 		[]*c15Rec{recOf(":", ":"), recOf(":x", "x:"), recOf("a:x", "x:a"), recOf("", ""), recOf("a", "a")})
 	c15Emit(g, "smallest", []*c15Node{{Kind: kIf, Match: []c15Match{{"log", opLenGt, "0"}, {"app", opLenLt, "1"}}, Then: one(&c15Node{Kind: kAddFields, Pairs: [][2]string{{"aux", "Y"}}})}}, c15Schema,
 		[]*c15Rec{recOf("", ""), recOf("a", ""), recOf("a", "b"), recOf("", "b")})
+}
+
+// values far longer than any 16-bit quantity, transported as (unit, repeat count); the programs shorten
+// them again so that the output stays small
+type c15LongRec struct {
+	units  []string
+	counts []int
+}
+
+func c15EmitLong(g *Gen, prog []*c15Node, recs []c15LongRec) {
+	g.Count("long-value")
+	s := [][]byte{c15Encode(prog), []byte(strings.Join(c15Schema, ","))}
+	z := []int64{int64(len(recs))}
+	for range recs {
+		z = append(z, 10, 0)
+	}
+	for _, r := range recs {
+		for j := range c15Schema {
+			u, k := "", 0
+			if j < len(r.units) {
+				u, k = r.units[j], r.counts[j]
+			}
+			s = append(s, []byte(u))
+			z = append(z, int64(k))
+		}
+	}
+	g.Case(1, s, z)
+}
+
+func c15Long(g *Gen) {
+	del := &c15Node{Kind: kDelFields, Keys: []string{"log"}}
+	lr := func(unit string, k int) c15LongRec { return c15LongRec{[]string{unit}, []int{k}} }
+	c15EmitLong(g, []*c15Node{{Kind: kAddFields, Pairs: [][2]string{{"aux", "x${log[32760:32775]}|${log[-2:]}|${log[39990:]}|${log[:3]}|${log[32767:32768]}"}, {"cls", "${log[65530:]}"}}}, del},
+		[]c15LongRec{lr("0123456789", 4000), lr("01234567", 4096), lr("0123456", 4681), lr("0123456789", 7000)})
+	c15EmitLong(g, []*c15Node{{Kind: kTruncate, Key: "log", Num: "10", Suffix: "..."}}, []c15LongRec{lr("0123456789", 4000), lr("é", 20000)})
+	c15EmitLong(g, []*c15Node{{Kind: kTruncate, Key: "log", Num: "32770", Suffix: "."}, {Kind: kAddFields, Pairs: [][2]string{{"aux", "${log[-4:]}"}}}, del},
+		[]c15LongRec{lr("0123456789", 4000), lr("a", 32771), lr("a", 32772), lr("世", 10925)})
+	c15EmitLong(g, []*c15Node{{Kind: kExHead, Key: "log", Pat: "*9", Num: "100", Dest: "cls"}, {Kind: kExHead, Key: "log", Pat: "0*END", Num: "40000", Dest: "app"},
+		{Kind: kAddFields, Pairs: [][2]string{{"aux", "${log[:5]}..${log[-5:]}"}, {"app", "${app[:4]}"}}}, del}, []c15LongRec{lr("0123456789", 4000), lr("1234567890", 4000)})
+	c15EmitLong(g, []*c15Node{{Kind: kUnescape, Key: "log"}, {Kind: kAddFields, Pairs: [][2]string{{"aux", "${log[-6:]}${log[29990:29996]}"}}},
+		{Kind: kIf, Match: []c15Match{{"log", opLenGt, "32767"}}, Then: one(&c15Node{Kind: kIf, Match: []c15Match{{"log", opLenLt, "40000"}}, Then: one(&c15Node{Kind: kAddFields, Pairs: [][2]string{{"cls", "big"}}})})}, del},
+		[]c15LongRec{lr(strings.Repeat("abcdefghij", 40)+`\\n`, 99), lr("0123456789", 4000), lr("01234567", 4096)})
 }
